@@ -24,7 +24,7 @@ pub const EXT_VARIANTS: [&str; 3] = [
 ];
 
 /// (name, content). `%` in a content is replaced by nothing; contents are complete files.
-pub const SNIPPETS: [(&str, &str); 18] = [
+pub const SNIPPETS: [(&str, &str); 21] = [
     ("avatar", "import { iso } from '@iso';\nexport const Avatar = iso(`\n  field User.Avatar @component {\n    name\n    age\n  }\n`)(function AvatarComponent({ data }) { return null; });\n"),
     ("avatar2", "import { iso } from '@iso';\nexport const Avatar = iso(`\n  field User.Avatar @component {\n    name\n  }\n`)(function AvatarComponent({ data }) { return null; });\n"),
     ("home", "import { iso } from '@iso';\nexport const Home = iso(`\n  field Query.Home @component {\n    me {\n      name\n      Avatar\n    }\n    pets {\n      id\n      name\n    }\n  }\n`)(function HomeComponent({ data }) { return null; });\nconst e = iso(`entrypoint Query.Home`);\n"),
@@ -44,6 +44,11 @@ pub const SNIPPETS: [(&str, &str); 18] = [
     // the same client field (User.Avatar) selected @loadable here and plainly in `home`
     ("lazy", "import { iso } from '@iso';\nexport const Lazy = iso(`\n  field Query.Lazy @component {\n    me {\n      id\n      Avatar @loadable\n    }\n  }\n`)(function LazyComponent({ data }) { return null; });\nconst e = iso(`entrypoint Query.Lazy`);\n"),
     ("lazycard", "import { iso } from '@iso';\nexport const LazyCard = iso(`\n  field Query.LazyCard @component {\n    pets {\n      id\n      Card @loadable(lazyLoadArtifact: true)\n    }\n  }\n`)(function LazyCardComponent({ data }) { return null; });\nconst e = iso(`entrypoint Query.LazyCard`);\n"),
+    // the field of `home` / `petlist` without its entrypoint, and an entrypoint on its own:
+    // switching between them removes single files of a selectable that stays (DeleteFile)
+    ("home_noentry", "import { iso } from '@iso';\nexport const Home = iso(`\n  field Query.Home @component {\n    me {\n      name\n      Avatar\n    }\n    pets {\n      id\n      name\n    }\n  }\n`)(function HomeComponent({ data }) { return null; });\n"),
+    ("petlist_noentry", "import { iso } from '@iso';\nexport const PetList = iso(`\n  field Query.PetList {\n    pets {\n      id\n      Card\n    }\n  }\n`)(({ data }) => data.pets);\n"),
+    ("entry_home", "import { iso } from '@iso';\nconst e = iso(`entrypoint Query.Home`);\n"),
 ];
 
 /// Files of the world. `source` = has an extension the batch compiler reads.
